@@ -54,6 +54,8 @@ Fixpoint estmt (s : stmt expr) : Full.stmt :=
   | SThrow e => Full.JThrow (eexpr e)
   | STry b c f => Full.JTry (el b) (match c with Some c => Some (ex_name, el c) | None => None end)
                             (match f with Some f => Some (el f) | None => None end)
+  | SForIn t src b =>
+      Full.JForIn (match t with EVar x => ename x | _ => ex_name end) (eexpr src) (Full.JBlock (el b))
   | SSwitch e cs =>
       Full.JSwitch (eexpr e)
         ((fix ec (cs : list (option expr * list (stmt expr))) : list (option Full.expr * list Full.stmt) :=
